@@ -34,6 +34,7 @@ DRIVER = "Drivers/C12.lean"
 KEY_MOD = "simplify:modulo:negative-numerator"
 KEY_SHADOW = "simplify:fact-table:shadowed-name"
 KEY_CFG = "simplify:fact-table:config-write"
+KEY_QUOT = "simplify:quotient-remainder:same-name"
 KEY_GENERIC = "simplify:value-changed"
 KEY_MODEL = "simplify:model-mismatch"
 
@@ -411,6 +412,30 @@ def drop_cfg_writes(n):
     return dict(n, body=rb(n["body"]))
 
 
+def defact(n):
+    """same meaning, but no condition has the shape `e == const` that feeds the fact table:
+    `l == r` in an if-condition becomes `l <= r and l >= r`"""
+    def rc(e):
+        if e[0] == "o" and e[1] == "==":
+            return ["o", "and", ["o", "<=", e[2], e[3]], ["o", ">=", e[2], e[3]]]
+        if e[0] == "o" and e[1] in ("and", "or"):
+            return ["o", e[1], rc(e[2]), rc(e[3])]
+        return e
+
+    def rb(b):
+        out = []
+        for s in b:
+            if s[0] == "if":
+                out.append(["if", rc(s[1]), rb(s[2]), rb(s[3])])
+            elif s[0] == "for":
+                out.append(["for", s[1], s[2], s[3], s[4], rb(s[5])])
+            else:
+                out.append(s)
+        return out
+
+    return dict(n, body=rb(n["body"]))
+
+
 def has_shadow(n):
     """two distinct symbols with the same name somewhere in the procedure"""
     seen = {}
@@ -576,7 +601,8 @@ class Gen:
         if self.use_cfg and k < 0.10:
             return f"Cfg.{r.choice('ab')} == {r.choice([0, 3, 4])}"
         if k < 0.30:
-            return f"{self.expr(vs, 1)} == {r.choice([0, 0, 1, 2, 3, 4])}"
+            c = r.choice([0, 0, 1, 2, 3, 4, -1, -3, -7, 9])
+            return f"{self.expr(vs, 1)} == {c if c >= 0 else f'(-{-c})'}"
         if k < 0.38:
             return f"{r.choice([0, 1, 2, 4])} == {self.expr(vs, 1)}"
         if k < 0.50:
@@ -768,6 +794,107 @@ FIXED = [
 ]
 
 
+def tmpl_procs(r, n):
+    """procedures aimed at the boundary of each rewrite (ranges that just fit / just do not fit the
+    divisor, facts re-used in their branch, facts next to shadowing loops and config writes,
+    recombination with equal / different divisors, loops with equal / reversed literal bounds)"""
+    out = []
+    for t in range(n):
+        k = t % 8
+        d = r.choice([2, 3, 4, 8])
+        name = f"t{t}"
+        L = [f"def {name}(n: size, a: index, x: f32[8], y: f32[4]):"]
+        X = r.choice(["a", "a + 1", "n", "n + a", "a - 2", "2 * a"])
+        if k == 0:
+            lo = r.choice([0, 0, 1, -1, 2])
+            hi = lo + r.choice([d - 1, d, d + 1])
+            c = r.choice([0, d, -d, 1, -1, 2 * d])
+            L += [f"    for i in seq({lo}, {hi}):",
+                  f"        for j in seq(0, 3):",
+                  f"            sink2((i + {d} * j + {c}) / {d}, ({d} * j + i + {c}) % {d})",
+                  f"            sink2(({2 * d} * j + i) / {d}, (i + {c}) / {d})",
+                  f"            sink2(({d} * j + i - {lo}) / {d}, ({d} * j + i - {lo}) % {d})"]
+        elif k == 1:
+            lo = r.choice([-2, -1, 0, 1])
+            hi = lo + r.choice([1, d - 1, d, d + 1])
+            c = r.choice([0, 1, 2, d, d + 1])
+            L += [f"    for i in seq({lo}, {hi}):",
+                  f"        sink2((i + {c}) % {d}, (i - {c}) % {d})",
+                  f"        sink2((i + {d} * n) % {d}, (-i) % {d})",
+                  f"        x[(i - {c}) % 8] = 1.0"]
+        elif k == 2:
+            k0 = r.choice([0, 0, 1, 2])
+            side = r.random() < 0.5
+            cond = f"({X}) / {d} == {k0}" if side else f"{k0} == ({X}) / {d}"
+            L += [f"    if {cond}:",
+                  f"        sink2(({X}) % {d}, ({X}) / {d})",
+                  f"        sink1(({X}) % {d} + {d} * (({X}) / {d}))",
+                  f"    else:",
+                  f"        sink2(({X}) % {d}, ({X}) / {d})",
+                  f"    sink1(({X}) % {d})"]
+        elif k == 3:
+            k0 = r.choice([0, 1, 2, 3])
+            c = r.choice([0, 1, 2])
+            e = "i" if c == 0 else f"i + {c}"
+            inner = r.choice(["i", "i", "j"])
+            L += [f"    for i in seq(0, 4):",
+                  f"        if {e} == {k0}:",
+                  f"            sink2({e}, i)",
+                  f"            for {inner} in seq(0, 3):",
+                  f"                sink2({inner}, {inner} + {c})",
+                  f"                sink1(i + {c})",
+                  f"            sink1({e})",
+                  f"        else:",
+                  f"            sink1({e})",
+                  f"        sink1({e})"]
+        elif k == 4:
+            k0, k1 = r.choice([0, 3, 4]), r.choice([0, 3, 4])
+            f = r.choice("ab")
+            g = r.choice("ab")
+            w = r.choice([None, f"Cfg.{f} = {k1}", f"Cfg.{g} = Cfg.{f} + 1", f"Cfg.{f} = a"])
+            L += [f"    if Cfg.{f} == {k0}:",
+                  f"        sink1(Cfg.{f} + 1)"]
+            if w:
+                L += [f"        {w}"]
+            L += [f"        sink2(Cfg.{f}, Cfg.{g})",
+                  f"        if Cfg.{f} == {k1}:",
+                  f"            sink1(Cfg.{f})",
+                  f"    else:",
+                  f"        sink1(Cfg.{f})",
+                  f"    sink1(Cfg.{f})"]
+        elif k == 5:
+            d2 = r.choice([d, d, 2 * d, r.choice([2, 3, 4, 8])])
+            L += [f"    for i in seq(0, 9):",
+                  f"        sink2(({X}) % {d} + {d2} * (({X}) / {d}), {d} * (({X}) / {d2}) + ({X}) % {d})",
+                  f"        sink2(i % {d} + (i / {d2}) * {d}, (i / {d}) * {d2} + i % {d})",
+                  f"        sink2(i % {d} + {d} * (({X}) / {d}), ({X}) % {d} + {d} * (i / {d}))"]
+        elif k == 6:
+            c1 = r.choice([0, 1, 2, 3])
+            c2 = c1 + r.choice([0, 0, 1, -1, 2])
+            cmp_ = r.choice(["<", "<=", ">", ">=", "=="])
+            L += [f"    for i in seq({c1}, {c2}):",
+                  f"        sink1(i)",
+                  f"    for i in seq(n - n, {r.choice([0, 1])}):",
+                  f"        sink1(i + n)",
+                  f"    for i in seq(n, n):",
+                  f"        sink1(i)",
+                  f"    if {c1} {cmp_} {c2}:",
+                  f"        sink1({c1})",
+                  f"    else:",
+                  f"        sink1({c2})",
+                  f"    if n - n == {r.choice([0, 1])}:",
+                  f"        sink1(n)"]
+        else:
+            a1, a2 = r.choice([(2, 2), (2, 4), (4, 2), (2, 3), (3, 2), (4, 4), (3, 3)])
+            hi = r.choice([a1 - 1, a1, a1 + 1, a2])
+            L += [f"    for i in seq(0, {max(hi, 1)}):",
+                  f"        for j in seq(0, 5):",
+                  f"            sink2((i + {a1} * j) / {a1 * a2}, ({a1} * i + {a1 * a2} * j) / {a1 * a2})",
+                  f"            sink2(((i + {a1} * j) / {a1}) / {a2}, (i + {a1 * a2} * j + {a1 * a2}) / {a1 * a2})"]
+        out.append((name, L))
+    return out
+
+
 def build_module(tmpdir, modname, procs):
     """procs: list of (name, [source lines]) -> module; every @proc is wrapped so that a front-end
     rejection of one procedure does not lose the others"""
@@ -903,6 +1030,9 @@ class Checker:
                     dc = drop_cfg_writes(b)
                     reqs.append(json.dumps({"op": "simplify", "sizes": dc["sizes"], "preds": dc["preds"], "body": dc["body"]}))
                     owners.append((k, "nocfgw"))
+                    df = defact(b)
+                    reqs.append(json.dumps({"op": "simplify", "sizes": df["sizes"], "preds": df["preds"], "body": df["body"]}))
+                    owners.append((k, "defact"))
                     reqs.append(json.dumps({"op": "simplify", "fixmod": True, "sizes": ra["sizes"], "preds": ra["preds"],
                                             "body": drop_cfg_writes(ra)["body"]}))
                     owners.append((k, "all"))
@@ -948,14 +1078,24 @@ class Checker:
             keys = []
             if model_same:
                 b = r["before_s"]
-                variants = {"fixmod": (b, KEY_MOD), "renamed": (rename_apart(b), KEY_SHADOW), "nocfgw": (drop_cfg_writes(b), KEY_CFG)}
+                variants = {"fixmod": (b, KEY_MOD), "renamed": (rename_apart(b), KEY_SHADOW), "nocfgw": (drop_cfg_writes(b), KEY_CFG),
+                            "defact": (defact(b), None)}
+                fixed_by = {}
                 for name, (bb, key) in variants.items():
                     a = ans.get(name)
+                    fixed_by[name] = False
                     if a and a.get("ok"):
                         aa = dict(bb, body=a["body"], preds=a["preds"])
                         _, ww = compare_on_box(bb, aa, self.cap)
-                        if ww is None:
-                            keys.append(key)
+                        fixed_by[name] = ww is None
+                if fixed_by["fixmod"]:
+                    keys.append(KEY_MOD)
+                if fixed_by["renamed"]:
+                    # printed-name comparison: the fact table if emptying the table also repairs it,
+                    # otherwise is_quotient_remainder
+                    keys.append(KEY_SHADOW if fixed_by["defact"] else KEY_QUOT)
+                if fixed_by["nocfgw"]:
+                    keys.append(KEY_CFG)
                 if not keys:
                     a = ans.get("all")
                     if a and a.get("ok"):
@@ -963,7 +1103,7 @@ class Checker:
                         aa = dict(bb, body=a["body"], preds=a["preds"])
                         _, ww = compare_on_box(bb, aa, self.cap)
                         if ww is None:
-                            keys = [KEY_MOD, KEY_SHADOW, KEY_CFG]
+                            keys = [KEY_MOD, KEY_SHADOW, KEY_CFG]   # several causes at once
                             # keep only the causes that are syntactically present
                             if not has_shadow(b):
                                 keys.remove(KEY_SHADOW)
@@ -1013,6 +1153,14 @@ def stencil(N: size, inp: f32[N + 2], out: f32[N]):
     for i in seq(0, N):
         out[i] = inp[i] + inp[i + 1] + inp[i + 2]
 @proc
+def callee_same_name(a: index):
+    for i in seq(0, 8):
+        sink1(a % 4 + 4 * (i / 4))
+@proc
+def caller_same_name():
+    for i in seq(0, 8):
+        callee_same_name(i)
+@proc
 def scal(N: size, x: f32[N]):
     for i in seq(3, N + 3):
         t: f32
@@ -1028,6 +1176,14 @@ def scal(N: size, x: f32[N]):
     r = ctx.rng
     tails = ["guard", "cut", "cut_and_guard"]
 
+    # `inline` brings two different symbols with the same name into one scope
+    try:
+        p_inl = S.inline(mod.caller_same_name, "callee_same_name(_)")
+        chk.case("inline_same_name", "# S.inline(caller_same_name, 'callee_same_name(_)') of c12.py ops_stream\n" + str(p_inl),
+                 p_inl, "fixed")
+    except Exception as e:
+        ctx.count(f"ops:inline:rejected:{type(e).__name__}")
+
     def attempt(label, base, steps):
         """steps: list of (opname, fn(p)->p).  Every prefix that succeeds is simplified and checked."""
         p = base
@@ -1042,7 +1198,7 @@ def scal(N: size, x: f32[N]):
             ctx.count(f"ops:{name}:applied")
             chk.case(f"{label}:{'+'.join(done)}", "# pipeline on c12.py ops_stream procedure\n" + str(p), p, "ops")
 
-    n = ctx.scale(6, 30)
+    n = ctx.scale(4, 30)
     for t in range(n):
         c1 = r.choice([2, 3, 4])
         c2 = r.choice([2, 4])
@@ -1077,7 +1233,7 @@ def expr_stream(chk, ctx, tmpdir, drv_reqs):
     result is read off the call argument, the model is asked through the `expr` request"""
     r = ctx.rng
     g = Gen(r, use_cfg=False)
-    n = ctx.scale(40, 200)
+    n = ctx.scale(30, 200)
     procs, metas = [], []
     for t in range(n):
         vs = ["n", "a"]
@@ -1169,6 +1325,14 @@ def run(ctx):
 
     chk = Checker(ctx, exo)
     chk.model_gap = []
+    _trace_cases.clear()
+    phase = {}
+    if ctx.replay:
+        with tempfile.TemporaryDirectory(prefix="c12_") as tmpdir:
+            replay_one(chk, ctx, tmpdir)
+        for b in broken:
+            ctx.violation("obligation:" + b, f"Lean obligation broken: {b}", {"obligation": b}, no_input=True)
+        return
     with tempfile.TemporaryDirectory(prefix="c12_") as tmpdir:
         # ---- 2a. fixed procedures
         procs = [(f"fx_{nm}", src.format(name=f"fx_{nm}").rstrip("\n").split("\n")) for nm, src in FIXED]
@@ -1177,8 +1341,18 @@ def run(ctx):
             if name in mod.ERR or not hasattr(mod, name):
                 raise InfraError(f"fixed procedure {name} rejected by the front end: {mod.ERR.get(name)}")
             chk.case(name, proc_source(body), getattr(mod, name), "fixed")
-        # ---- 2b. generated procedures
-        nproc = ctx.scale(90, 600)
+        phase["fixed"] = round(ctx.elapsed(), 1)
+        # ---- 2b. templates at the boundary of each rule
+        procs = tmpl_procs(ctx.rng, ctx.scale(40, 240))
+        mod, _ = build_module(tmpdir, "c12_tmpl", procs)
+        for name, body in procs:
+            if name in mod.ERR or not hasattr(mod, name):
+                ctx.count("tmpl:front-end-rejected:" + mod.ERR.get(name, "?"))
+                continue
+            chk.case(name, proc_source(body), getattr(mod, name), "tmpl")
+        phase["tmpl"] = round(ctx.elapsed(), 1)
+        # ---- 2c. generated procedures
+        nproc = ctx.scale(60, 600)
         gen = Gen(ctx.rng)
         batch = 30
         made = 0
@@ -1193,14 +1367,17 @@ def run(ctx):
                     continue
                 chk.case(name, proc_source(body), getattr(mod, name), "gen")
             made += batch
-            if ctx.quick and ctx.elapsed() > 110:
+            if ctx.quick and ctx.elapsed() > 100:
                 break
+        phase["gen"] = round(ctx.elapsed(), 1)
         # ---- 2c. outputs of other scheduling operations
         try:
             ops_stream(chk, ctx, tmpdir)
         except InfraError:
             raise
+        phase["ops"] = round(ctx.elapsed(), 1)
         chk.flush()
+        phase["model"] = round(ctx.elapsed(), 1)
 
         # ---- 2d. expression + context requests, printed keys
         drv_reqs = []
@@ -1227,7 +1404,10 @@ def run(ctx):
                                            "printed_after": meta["after_str"]}, a))
 
         # ---- 3. Lean semantics vs python evaluator on a sample (ties `execB`/`eval` to the oracle of the search)
+        phase["expr"] = round(ctx.elapsed(), 1)
         sample_trace(chk, ctx)
+        phase["lean-trace"] = round(ctx.elapsed(), 1)
+    ctx.extra["phase_end_s"] = phase
 
     # ---- 4. verdicts for theorem / correspondence breaks without a failing input
     for b in broken:
@@ -1242,6 +1422,33 @@ def run(ctx):
 
 
 _trace_cases = []
+
+
+def replay_one(chk, ctx, tmpdir):
+    """./check C12 --replay replays/C12_….json : rebuild the recorded procedure from its source text,
+    run the real simplify, the model comparison and the valuation search on it again"""
+    rec = json.loads(Path(ctx.replay).read_text())
+    rp = rec.get("replay") or {}
+    src = rp.get("source")
+    if not src:
+        raise InfraError("replay file has no source")
+    lines = [ln for ln in src.split("\n") if not ln.startswith("#") and ln.strip() != "@proc"]
+    name = None
+    for ln in lines:
+        if ln.startswith("def "):
+            name = ln[4:].split("(")[0].strip()
+            break
+    if name is None:
+        raise InfraError("replay source has no def")
+    mod, _ = build_module(tmpdir, "c12_replay", [(name, lines)])
+    if name in mod.ERR or not hasattr(mod, name):
+        raise InfraError(f"replay source rejected by the front end: {mod.ERR.get(name)}")
+    chk.case(name, proc_source(lines), getattr(mod, name), rec.get("key", "replay").split(":")[-1] or "replay")
+    chk.flush()
+    for r, m in chk.model_gap[:5]:
+        ctx.violation(KEY_MODEL + ":" + r["stream"], f"real simplify and the Lean model disagree on {r['label']}",
+                      {"source": r["source"], "real_after": r.get("printed_after"), "first_difference": r.get("model_diff")},
+                      no_input=True)
 
 
 def sample_trace(chk, ctx):
